@@ -41,6 +41,36 @@ CHECKS = {
          "Quick runs 222 grid/canary cases (11 versions × empty/one/many roots, groups, 49 conversion pairs) plus 40k random roots, 25k groups and 24k conversions (thorough 2.67M). Each root is written, parsed by both parser generations and compared field by field (floats bitwise) with the input; the second write is byte-compared; an independent walker transcribed from the WMO v17 description checks exact chunk tiling, MOHD counts against chunk/record sizes and list lengths, MOTX/MOGN/MODN offset resolution, MOGP extent and sub-chunk reference encodings; conversions must preserve content and serialise like the native target-version value.",
          "Trusted: the transcription of record sizes/layouts from the wowdev description. 14 genuine writer/parser disagreements are open known findings (3 hit every root or group); the remaining clauses are evaluated on harness-repaired copies while the defect itself is measured on the raw bytes. Group second-write identity and liquid vertices are undecidable until a parser returns them.",
          "DESIGN.md §4 C15"),
+ "C10": ("fault_enumeration",
+         "enumerated faults (every byte of every protected region × three xor masks + seeded multi-byte overwrites) on one archive per kind of integrity metadata, judged in supervised workers against read / SFileVerifyFile (libstorm.so) / V4 md5_status / verify_signature",
+         "For sector-checksum, attributes CRC32, attributes CRC32+MD5, V4 digest and weak-signature archives the protected regions are located and every byte is faulted; a faulted image must fail to open/read, or a verify operation must report failure, or every file must still read bit-identical (signed archives: any change ⇒ not WeakValid); intact images must read identically and verify everywhere. Function level: library-generated signatures over random byte strings around the 64 KiB digest unit verify and stop verifying after data-bit and signature-bit flips. Quick enumerates ≈58k faulted images, thorough every mask at every offset (exhaustive over the enumerated regions).",
+         "Regions are located with the library's own header/find_file on the intact archive (location only). Only bytes the present metadata protects are faulted. A crash/OOM/hang on a faulted image is not silent corruption: it is counted and judged by C05. Open finding: multi-sector sector-checksum verification is disabled.",
+         "DESIGN.md §4 C10"),
+ "C13": ("exploration",
+         "property-based round-trip / metamorphic testing (proptest + deterministic grid) with an independent header/record layout walker (m2layout)",
+         "On every generated model (28 sections each empty/one/many, key-frame payloads on all track kinds, extreme floats, long names) in versions 256/260/264/272, every skin in old/new layouts and every anim file in both containers: parse(write(x)) equals x on all listed content bitwise, write(parse(write(x))) == write(x), an independent walker finds every (count, offset) inside the file and non-overlapping, convert to the same version changes neither content nor bytes, and convert a→b (all 25 pairs, both entry points) keeps every field both versions have a slot for; panics are failures. Quick 54 884 cases, thorough 1.28 M.",
+         "Sampled, not exhaustive. No retail-format conformance, no chunked MD21 (no writer). Ten open root causes (14 signatures) are steered around by exclusion switches and measured by canaries and unrestricted campaigns every run.",
+         "DESIGN.md §4 C13"),
+ "C14": ("exploration",
+         "property-based round-trip (proptest shapes + deterministic materialiser through the public AdtBuilder) + independent chunk/offset walker + metamorphic rebuild rounds + grid and canaries",
+         "For 16k (quick) / 410k (thorough) generated tiles over all six target versions: parse_adt(build().to_bytes()) returns the input content bit-for-bit field by field; up to six from_root_adt→to_bytes→parse rounds plus one from_parsed round keep that content and never lengthen the file; in every produced file the chunks tile exactly at both levels and every MHDR/MCIN/MMID/MWID/MCNK-header offset resolves to the named (sub-)chunk, judged by a walker independent of the crate.",
+         "Seven open root causes (23 signatures: until-EOF reads of MTXF/MTXP/MBM*, invented MFBO, MCIN size, MCLQ over-read, MCRF mirroring, unparsed split extras, MoP detection) are steered around by switches and measured by canaries. MH2O internal offsets judged only through the crate's parser; version detection counted, not judged.",
+         "DESIGN.md §4 C14"),
+ "C16": ("exploration",
+         "proptest volume + deterministic grid + exhaustive 64×64 shape sweep; round trip plus an independent byte-level structural judge (blpcheck)",
+         "For generated images (1×1…512×512, 7 shape classes, 8 pixel classes) × all 25 targets × mipmaps × filters: parse(encode(image_to_blp(img))) equals the encoded texture; header fields, mip chain, per-level sizes and offset/size tables read from the raw bytes satisfy the statement; every level decodes to the halved dimensions; Raw3 level 0 is bit-exact with the source; for Raw1 every decoded colour is the palette entry of the stored index and the stored alpha code is a quantisation (trunc/round/floor/ceil accepted) of the source alpha. Quick 69 799 cases, thorough 642 567.",
+         "Two open root causes (short mip chains when sides lie in different octaves; DXT parse truncation for partial blocks) are steered around by switches and measured by fixed canaries. Lossy colour fidelity and mip pixel content are not judged.",
+         "DESIGN.md §4 C16"),
+ "C17": ("exploration",
+         "proptest volumes + deterministic grid against an independent WDBC encoder/decoder (dbcenc) and a model table; differential over access paths",
+         "≈20 000 (quick) / 400 000 (thorough) generated tables over all nine field types, arrays 1..8, key anywhere, 0..10 000 records, duplicate/empty/non-ASCII/suffix-shared strings, three reference string-block layouts. Each table is parsed from an independently encoded file and compared with the model on the eager, cached-string, lazy (iterator and indexed), memory-mapped and parallel paths with hashed and binary key lookups, rewritten with DbcWriter, the written bytes judged by an independent decoder (size equation, each string once, every value and reference), and all paths compared again.",
+         "Three open findings (writer field_count ignores array expansion; writer drops strings referenced only from String arrays; Int32 key fields never indexed) are measured on every affected case and neutralised so the rest is still judged. WDBC only.",
+         "DESIGN.md §4 C17"),
+ "C18": ("exploration",
+         "proptest + bounded-exhaustive enumeration (all 4096 tile indices, version rule, essential grid), independent chunk-walker oracle",
+         "For the 10 WDT and 10 WDL versions generated map definitions are written, judged byte-for-byte by an independent chunk walker (exact tiling, documented record layouts, every WDL MAOF offset resolved to the MARE chunk of the right tile), parsed back, compared on content and re-written byte-identically; conversions over all version pairs keep MAIN/MAID and heights/holes. The coordinate clause is decided exhaustively for all 4096 tile indices (corner round trip, forward formula, 5 interior points per tile).",
+         "Exhaustive only for the coordinate maps and the MWMO version rule; file round trips are sampled. MAID/ML* layouts taken from the crate's own docs.",
+         "DESIGN.md §4 C18"),
 }
 
 NOT_YET = "check not built yet in this round (planned in DESIGN.md §4); not claimed until it runs silently on the unchanged tree"
